@@ -72,7 +72,29 @@ def event(seed: int) -> list:
             new = rng.choice(NEWS)
             o["new"] = cps(new)
             # a replacement string is taken literally: escape what re.sub would interpret
-            ev["ret"] = par.replace(rx, new.replace("\\", "\\\\"), formatted=o["formatted"])
+            if rng.random() < 0.25:
+                # the same replacement through the odfdo-replace command's function: document saved, replaced, saved, reopened
+                from odfdo import Document
+                from odfdo.scripts.replace import search_replace
+
+                o["via"] = "script"
+                doc = Document("text")
+                doc.body.clear()
+                doc.body.append(par)
+                tmpd = tempfile.mkdtemp(prefix="verif_replace_")
+                try:
+                    src, dst = os.path.join(tmpd, "in.odt"), os.path.join(tmpd, "out.odt")
+                    doc.save(src)
+                    search_replace(rx, new.replace("\\", "\\\\"), src, dst, o["formatted"])
+                    out = Document(dst)
+                    par = out.body.get_elements("text:p|text:h")[0]
+                    ev["ret"] = 0
+                finally:
+                    import shutil
+
+                    shutil.rmtree(tmpd, ignore_errors=True)
+            else:
+                ev["ret"] = par.replace(rx, new.replace("\\", "\\\\"), formatted=o["formatted"])
         else:
             o["op"] = "search"
             ev["linkfree"] = not any(t["k"] == "o" and t["tag"] == "a" for t in tokens)
